@@ -59,7 +59,7 @@ CHECKS["C18"] = cfg(
     "C18",
     technique="runtime monitoring: invariant monitors over every JWK observed (exhaustive private-member subsets x routes, random identity groups, odd JSON, setter histories, key generation) with own RFC 7638 reference",
     level_text="Every JWK built through constructors, setters, JSON (member permutations, family mismatches) and key generation is run through monitors: kty equals the family of the params carried, is_public iff no private member, to_public leaks nothing / keeps public members / is idempotent, thumbprint equals the harness's RFC 7638 computation and is invariant under optional members, order and private parts; verification-method constructors refuse private JWKs; generated output and documents are deep-scanned for private members.",
-    min={"quick": {"jwks_observed": 50000, "wellformed_built": 20000, "oracle_thumbprint_ref": 50000, "oracle_to_public": 40000,
+    min={"quick": {"ext_converted": 3000, "ext_converted_source_kty_differs_from_variant": 2000, "container_jwks": 10000, "container_reads": 20000, "jwks_observed": 50000, "wellformed_built": 20000, "oracle_thumbprint_ref": 50000, "oracle_to_public": 40000,
                    "vm_private_refused": 100000, "vm_public_accepted": 40000, "odd_json_accepted": 200, "gen_outputs": 100,
                    "document_jwks_scanned": 150, "nontrivial": 2000},
          "thorough": {"jwks_observed": 2000000, "wellformed_built": 800000, "oracle_to_public": 1700000, "nontrivial": 20000}},
@@ -94,7 +94,7 @@ CHECKS["C19"] = cfg(
     "C19", exhaustive=True,
     technique="runtime monitoring: reference duplicate-free list model compared after every operation; exhaustive op sequences to bounded length, state-graph closure, random histories, constructor/serde lists",
     level_text="Every OrderedSet/OneOrSet/OneOrMany operation is executed on the real collection and on a harness list model; result flag and full order are compared after each step, exhaustively for all op sequences up to a per-universe length, for every (reachable state x op) transition, and for long random histories; all short lists (with duplicates/empties) go through every constructor and serde path.",
-    min={"quick": {"oset_exhaustive_sequences": 30000000, "oset_closure_steps": 4000, "oset_rand_steps": 150000, "oset_tryfrom_rejected": 500,
+    min={"quick": {"json_other_path_roundtrips": 20000, "json_borrowed_roundtrips": 200, "oneormany_singleton_bare": 100, "oset_exhaustive_sequences": 30000000, "oset_closure_steps": 4000, "oset_rand_steps": 150000, "oset_tryfrom_rejected": 500,
                    "json_roundtrips": 30000, "oneorset_checks": 10000, "oneorset_rejected_duplicates": 1000, "oneormany_checks": 5000, "nontrivial": 30000000},
          "thorough": {"oset_exhaustive_sequences": 1000000000, "oset_closure_steps": 50000, "oset_rand_steps": 3000000, "nontrivial": 1000000000}},
     thorough=[{"flavour": "checked", "shards": 16, "timeout": 3000},
@@ -107,7 +107,7 @@ CHECKS["C15"] = cfg(
     "C15",
     technique="runtime monitoring: sequential model of both stores over random histories; racing std-thread rounds with per-digest linearizability (Wing-Gong) check over recorded call/return stamps; TSan and Miri flavours",
     level_text="Random operation histories on JwkMemStore/KeyIdMemstore are compared step by step with a harness model (fresh ids, public-only JWK, RFC 7638 kid recomputed, signatures verifying under their own key and no other, deleted/never-issued ids dead, insert argument validation, second insert per digest refused). Racing rounds on 2-16 threads record client-boundary histories whose per-digest sub-histories must be linearizable (exactly one winner, every get returns it). A second stage (harness/vhs, bin c15s; quick and thorough) runs the same model, oracles and racing rounds on StrongholdStorage with real snapshot files. Thorough adds ThreadSanitizer and Miri runs of the memstore racing rounds.",
-    min={"quick": {"sign_ok": 1000, "cross_key_verifications": 5000, "generate_ok": 500, "insert_rejected": 200, "kid_insert_dup_rejected": 50,
+    min={"quick": {"race_delete_single_winner": 2000, "race_delete_overlap": 300, "insert_kty_mismatch_rejected": 60, "insert_ok_kid_seen_before": 60, "sh_insert_kty_mismatch_rejected": 3, "sign_ok": 1000, "cross_key_verifications": 5000, "generate_ok": 500, "insert_rejected": 200, "kid_insert_dup_rejected": 50,
                    "race_single_winner": 1000, "race_overlapping_rounds": 50, "lin_checked": 2000, "lin_checked_with_overlap": 200, "nontrivial": 200,
                    "sh_seq_ops": 500, "sh_sign_ok": 100, "sh_delete_absent_rejected": 30, "sh_race_single_winner": 30},
          "thorough": {"sign_ok": 50000, "race_single_winner": 50000, "lin_checked": 100000, "lin_checked_with_overlap": 10000,
@@ -208,7 +208,7 @@ CHECKS["C20"] = cfg(
     "C20", exhaustive=True,
     technique="runtime monitoring with a controlled scheduler: gate-controlled recording handlers, hand-polled futures with a counting waker, enumeration of all completion orders; did:jwk expansion oracle; threaded TSan/Miri flavours",
     level_text="Harness handlers log (table entry, DID) and complete only when the harness opens their gate while resolve/resolve_multiple are polled by hand, so every completion order of up to 5 pending handlers (all 120) is driven, on the Send and the single-threaded resolver: exactly one call on the handler registered for the method, with the input DID; unsupported method => error and no call; resolve_multiple = one entry per distinct DID equal to single resolution, for every order, Err iff some DID fails. did:jwk over generated public JWKs must expand to a document whose single method carries exactly that key.",
-    min={"quick": {"multi_cases": 4000, "multi_ok": 2000, "multi_err": 2000, "orders_enumerated_exhaustively": 2000, "single_ok": 2000, "single_unsupported": 400,
+    min={"quick": {"long_list_cases": 60, "long_list_distinct_dids": 20000, "jwk_list_cases": 2500, "jwk_respelled_pairs": 4000, "lookalike_list_cases": 300, "multi_lookups_checked": 40000, "multi_cases": 4000, "multi_ok": 2000, "multi_err": 2000, "orders_enumerated_exhaustively": 2000, "single_ok": 2000, "single_unsupported": 400,
                    "handler_calls_checked": 7000, "jwk_public_accepted": 3000, "jwk_docs_checked": 5000, "threaded_cases": 80, "distinct:orders": 250, "nontrivial": 500},
          "thorough": {"multi_cases": 400000, "multi_ok": 100000, "orders_enumerated_exhaustively": 150000, "jwk_docs_checked": 150000, "threaded_cases": 6000}},
     thorough=[{"flavour": "checked", "shards": 16, "timeout": 3000},
@@ -262,7 +262,7 @@ CHECKS["C14"] = cfg(
     "C14",
     technique="runtime monitoring: symbolic-DID document model rendered for any concrete DID as oracle for pack / unpack / rebase; exhaustive header mutations, truncations, trailing bytes, size boundary",
     level_text="IOTA documents generated from mixes of self/foreign methods in every scope, references (incl. dangling), services, controllers, alsoKnownAs and custom properties are packed, unpacked for the same DID (must equal the original) and for other DIDs/networks (must equal the harness model rendered with the target DID: exactly the self references rewritten); the payload and header are checked against the model, every single-byte header mutation and truncation must be rejected, trailing bytes ignored, and pack must fail exactly beyond 65535 bytes. A second stage (harness/vhs, bin c14s) wraps packed documents into alias outputs with Ed25519 or alias state-controller/governor addresses and reads them back with IotaDocument::unpack_from_output for the same or another DID: everything but the ledger address fields must equal the harness model, and no controller of the packed document may be dropped.",
-    min={"quick": {"pack_ok": 2000, "payload_matches_model": 2000, "unpack_ok": 2000, "roundtrip_same_ok": 2000, "rebase_ok": 5000, "self_refs_rewritten": 20000,
+    min={"quick": {"blocks_built": 400, "block_malformed_rejected": 250, "block_wellformed_accepted": 120, "block_documents_equal_model": 200, "pack_ok": 2000, "payload_matches_model": 2000, "unpack_ok": 2000, "roundtrip_same_ok": 2000, "rebase_ok": 5000, "self_refs_rewritten": 20000,
                    "foreign_refs_preserved": 20000, "header_mutations_rejected": 100000, "exhaustive_header_documents": 50, "truncations_rejected": 20000,
                    "trailing_ignored": 2000, "oversize_rejected": 16, "bytes_rejected_by_frame": 2000, "one_element_controller_array_inputs": 50, "nontrivial": 2000,
                    "alias_output_unpacked": 1000, "alias_output_other_did": 200, "alias_output_with_controllers_ed25519_state_controller": 200},
